@@ -412,7 +412,11 @@ class Real:
                         return tuple(val(x) for x in a["items"])
                     return self.dec(a)
                 args = [val(a) for a in st.get("args", [])]
+                if st.get("star") is not None:                      # spread a spec list (NodeList ...) as positional arguments
+                    args = args + list(val(st["star"]))
                 kwargs = {k: val(v) for k, v in st.get("kwargs", {}).items()}
+                if st.get("starkw") is not None:
+                    kwargs.update(val(st["starkw"]))
                 try:
                     if "call" in st:
                         r = self.resolve(st["call"])(*args, **kwargs)
@@ -427,6 +431,8 @@ class Real:
                     trace.append({"ok": self.enc(r), "env": {k: self.enc(v) for k, v in env.items()} if st.get("dump") else None})
                 except Exception as ex:
                     trace.append({"exc": type(ex).__name__, "msg": str(ex)[:200], "env": {k: self.enc(v) for k, v in env.items()} if st.get("dump") else None})
+                    if job.get("stop_on_exc"):
+                        break
             return {"trace": trace}
         if kind == "oracle":
             import importlib.util
